@@ -309,6 +309,8 @@ struct ScriptClock {
     lags: Vec<u64>,
     idx: usize,
     shared: Arc<Shared>,
+    /// delay point 44: the clock blocks for this long inside `synchronize`, as a real-time clock does
+    block_us: u64,
 }
 
 impl Clock for ScriptClock {
@@ -317,6 +319,9 @@ impl Clock for ScriptClock {
         self.idx += 1;
         let t = self.shared.tick_of(deadline);
         self.shared.log.lock().unwrap().push(json!({"ev": "sync", "t": t, "lag": lag}));
+        if self.block_us > 0 {
+            std::thread::sleep(Duration::from_micros(self.block_us));
+        }
         if lag == 0 {
             SyncStatus::Synchronized
         } else {
@@ -457,7 +462,12 @@ fn build(bench: &Bench, run: &Run, out: &mut dyn Write) -> World {
         }
         sources.push(s);
     }
-    init = init.set_clock(ScriptClock { lags: run.lags.clone(), idx: 0, shared: sh.clone() });
+    init = init.set_clock(ScriptClock {
+        lags: run.lags.clone(),
+        idx: 0,
+        shared: sh.clone(),
+        block_us: if run.delay_point == 44 { run.delay_us } else { 0 },
+    });
     if bench.tolerance >= 0 {
         init = init.set_clock_tolerance(sh.dur_of(bench.tolerance as u64));
     }
